@@ -24,10 +24,8 @@ NOTES = {
     "C10-m1": "first run: tie only + the oracle crashed on the harness's `readFd-error` line: oracle clauses readFd-error / readFd-cap, "
               "boundary generator at writable + 64 KiB",
     "C10-m2": "first run: tie only (single-threaded harness): free-running multi-thread readFd scenario (`mtReadFd`)",
-    "C11-m1": "first run (before the Client engine was extended for F33): `crash` with a concrete replay. Now the check stops at the first "
-              "disagreements between model and implementation - the replay file carries the concrete history (`script soerr ECONNREFUSED`, "
-              "`pollerr`, `iter`: implementation `sock handedOver 0`, `cb UP 0`; model `sock closed 0` + retry) - but the oracle has no clause "
-              "of its own for 'a refused attempt is never reported as a connection', so the line says no-failing-input-found",
+    "C11-m1": "first run: `crash`; after the Client engine was extended for F33 only model/implementation disagreements (the oracle had no "
+              "clause for 'an attempt whose SO_ERROR is non-zero is never reported as a connection'): oracle clause failed-attempt-handed-over",
     "C14-m1": "first run: tie only - the harness names the condition variables after the members and no longer compiled: "
               "anonymous-sync fallback build, oracle judges by operation",
     "C15-m1": "tie only, and rightly so: with the change the queued tasks run between the call of stop() and its return, which the "
@@ -46,8 +44,8 @@ NOTES_W6 = {
     "C02-m1": "C02's own check: ConnSkel / hold-kind tie only (the single-connection harness keeps a reference); the concrete replay is C12's "
               "(~TcpClient as the sole owner), as for the earlier weak-forceClose change C03-w2m2",
     "C06-m1": "a repeat of F4 / C07-m2 (sequence read after the hand-over): C06's check reports the broken tie; the use-after-free is C07's (`crash`, ASan)",
-    "C16-m1": "T1 only (`AsyncLog` extraction refuses the new declaration in threadFunc): every generated overload history has ONE overload pass; "
-              "two passes within flushInterval_ need the front-end to pause between two bursts while the back-end is inside its report - not in the alphabet. Named as a limit",
+    "C16-m1": "first run: T1 only (`AsyncLog` extraction refuses the new declaration in threadFunc; every generated overload history had ONE "
+              "overload pass): two-burst overload programs with schedules that let the back-end finish its first pass before the second burst",
 }
 
 
